@@ -5,7 +5,8 @@ used in DESIGN.md §13.8. A change is kept only if I confirmed it: applies, buil
 import json, os, shutil, glob, sys
 
 ROOT = os.path.dirname(os.path.dirname(os.path.abspath(__file__)))
-SRC, VER = "/tmp/seed", "/tmp/seed/verify"
+SRC = os.environ.get("SEED_DIR", "/tmp/seed"); VER = os.path.join(SRC, "verify")
+OFFSET = int(os.environ.get("SEED_OFFSET", "0"))      # round 2 continues the numbering: 3, 4
 
 def load(p):
     try: return json.load(open(p))
@@ -23,7 +24,8 @@ for out in sorted(glob.glob(os.path.join(SRC, "out*"))):
         chk2 = load(os.path.join(VER, n + ".check2.json"))      # after strengthening
         demo = load(os.path.join(VER, n + ".demo.json")) or {}
         confirmed = bool(suite.get("applies") and suite.get("builds") and suite.get("suite_passes"))
-        dst = os.path.join(ROOT, "seeded", pid, k)
+        kk = str(int(k) + OFFSET)
+        dst = os.path.join(ROOT, "seeded", pid, kk)
         if confirmed:
             shutil.rmtree(dst, ignore_errors=True); os.makedirs(dst)
             shutil.copy(patch, os.path.join(dst, "patch.diff"))
@@ -41,9 +43,9 @@ for out in sorted(glob.glob(os.path.join(SRC, "out*"))):
                           "caught_before_strengthening": chk.get("caught") if chk2 else None}
             rp = final.get("replay")
             if rp and os.path.exists(rp):
-                shutil.copy(rp, os.path.join(dst, "replay.json")); m["check"]["replay"] = "seeded/%s/%s/replay.json" % (pid, k)
+                shutil.copy(rp, os.path.join(dst, "replay.json")); m["check"]["replay"] = "seeded/%s/%s/replay.json" % (pid, kk)
             json.dump(m, open(os.path.join(dst, "meta.json"), "w"), indent=1)
-        rows.append((pid, k, meta.get("what", "")[:110], confirmed, demo.get("demo_confirms"), chk.get("caught"),
+        rows.append((pid, kk, meta.get("what", "")[:110], confirmed, demo.get("demo_confirms"), chk.get("caught"),
                      (chk2 or {}).get("caught"), (chk2 or chk).get("no_failing_input_found")))
 
 print("| id | change | confirmed (build+suite) | demo | caught | after strengthening |")
